@@ -61,7 +61,20 @@ func programFormat() px.FormatContext {
 
 func hx(s string) string { return sx.Str(s).Atom }
 
-func exec(c px.Context, op string, args []sx.Sexp) core.Result {
+// exec runs one op under a deadline of its own: on the original tree PuppetQuote does not return for a string that
+// holds U+FFFD (and allocates without bound while it spins)
+func exec(c px.Context, op string, args []sx.Sexp) (res core.Result) {
+	kind, ok := syn.Guarded(c, func() { res = exec1(c, op, args) })
+	if !ok {
+		if kind == "skipped" {
+			return core.Result{Out: "skipped", Pred: "n/a", Tags: []string{"skipped-after-timeouts"}}
+		}
+		return core.Fail("timeout", "timeout", "printing / parsing did not return within the deadline")
+	}
+	return res
+}
+
+func exec1(c px.Context, op string, args []sx.Sexp) core.Result {
 	if len(args) == 0 {
 		return core.Result{Out: "bad-op", Pred: "FAIL harness-bad-op " + op}
 	}
@@ -238,6 +251,9 @@ func rtValue(c px.Context, op string, v px.Value, nt bool, _ string) core.Result
 	}
 	out := hx(text)
 	o := syn.Parse(text)
+	if o.Kind == "skipped" {
+		return core.Result{Out: "skipped", Pred: "n/a", Tags: []string{op, "skipped-after-timeouts"}}
+	}
 	if o.Kind != "value" {
 		cls := "reparse-" + o.Kind
 		if knownClass != "" {
@@ -273,6 +289,7 @@ func rtValue(c px.Context, op string, v px.Value, nt bool, _ string) core.Result
 }
 
 func tagged(r core.Result, tags ...string) core.Result {
+	r.Pred = syn.Clean(r.Pred)
 	r.Tags = append(r.Tags, tags...)
 	return r
 }
@@ -302,7 +319,9 @@ func typeRoundTrip(c px.Context, t px.Type) core.Result {
 		return core.Fail("print-"+o.Kind, typeClass(t, "print-"+o.Kind), o.Msg)
 	}
 	out := hx(s)
-	if p := syn.Parse(s); p.Kind != "value" {
+	if p := syn.Parse(s); p.Kind == "skipped" {
+		return core.Result{Out: "skipped", Pred: "n/a", Tags: []string{"skipped-after-timeouts"}}
+	} else if p.Kind != "value" {
 		return core.Fail(out+" rt=f", typeClass(t, "reparse-"+p.Kind), fmt.Sprintf("%s does not parse: %s", s, p.Msg))
 	}
 	o := syn.Safely(func() px.Value { return c.ParseType(s) })
